@@ -359,7 +359,7 @@ def run(facts, res):
                 if "tail" not in gs_:
                     continue
                 nb += 1
-                cond = du.operand_term(t.args[0], 16)
+                cond = du.operand_term(t.args[0], 40)
                 while cond[0] == "var":
                     cond = cond[3]
                 alts = cond[1] if cond[0] == "phi" else [cond]
